@@ -4,7 +4,7 @@
    instance) is regenerated from /repo on every run. *)
 From Coq Require Import ZArith List String PrimFloat.
 From PyLib Require Import PyVal PyBuiltins B64 B64Facts.
-From Spec Require Import CalSpec.
+From Spec Require Import CalSpec CivilOfJdn.
 From Gen Require Import M_base M_Angle M_Epoch.
 From Proofs.C01 Require Import C01_defs C01_main.
 Import ListNotations.
@@ -45,6 +45,19 @@ Theorem C01_month_names_lastday : forall y s k s', -4712 <= y <= 6000 ->
   mkEpoch [VInt y; VStr s'; VInt (mlen y k)] = mkEpoch [VInt y; VInt k; VInt (mlen y k)].
 Proof. exact month_names_lastday. Qed.
 
+(* the independent day count itself is a bijection between valid civil dates (ALL years
+   >= -4712, no upper bound) and the day numbers >= 0, stepping by one from each date to the next
+   (4 Oct 1582 is followed by 15 Oct 1582) *)
+Theorem C01_daycount_bijection :
+  (forall y m d, valid y m d = true -> valid (fst (fst (next y m d))) (snd (fst (next y m d))) (snd (next y m d)) = true) /\
+  (forall y m d, valid y m d = true ->
+     jdn (fst (fst (next y m d))) (snd (fst (next y m d))) (snd (next y m d)) = jdn y m d + 1) /\
+  (forall y m d y' m' d', valid y m d = true -> valid y' m' d' = true ->
+     jdn y m d = jdn y' m' d' -> (y, m, d) = (y', m', d')) /\
+  (forall z, 0 <= z -> exists y m d, valid y m d = true /\ jdn y m d = z) /\
+  next 1582 10 4 = (1582, 10, 15).
+Proof. exact daycount_bijection. Qed.
+
 Theorem C01_anchors :
   mkEpoch [VInt (-4712); VInt 1; VFloat 1.5%float] = VObj cEpoch [VFloat 0%float] /\
   Epoch_mjd B0 (mkEpoch [VInt 1858; VInt 11; VInt 17]) = VFloat 0%float /\
@@ -57,4 +70,5 @@ Redirect "C01_refused.assumptions" Print Assumptions C01_refused.
 Redirect "C01_consecutive.assumptions" Print Assumptions C01_consecutive.
 Redirect "C01_month_names.assumptions" Print Assumptions C01_month_names.
 Redirect "C01_month_names_lastday.assumptions" Print Assumptions C01_month_names_lastday.
+Redirect "C01_daycount_bijection.assumptions" Print Assumptions C01_daycount_bijection.
 Redirect "C01_anchors.assumptions" Print Assumptions C01_anchors.
